@@ -367,13 +367,13 @@ class Ctx:
             return False
         return True
 
-    def harness_run(self, name, args, timeout=1200, env=None):
+    def harness_run(self, name, args, timeout=1200, env=None, wrap=()):
         exe = os.path.join(HBIN, name)
         e = dict(GOENV)
         if env:
             e.update(env)
         try:
-            rc, out = sh([exe] + [str(a) for a in args], timeout=timeout, env=e, cwd=self.work)
+            rc, out = sh(list(wrap) + [exe] + [str(a) for a in args], timeout=timeout, env=e, cwd=self.work)
         except subprocess.TimeoutExpired:
             self.broken.append(("correspondence: harness %s timed out" % name, ""))
             return False, ""
